@@ -188,7 +188,7 @@ def e1_jobs(prop, tier, seed):
     # Vec::chunk_mut, the Take::chunks_vectored transmute): the conformance engines run under the memory oracles;
     # only memory findings are owned here (sanitizer reports, ledger violations, guard bytes around fixed targets)
     if prop == "C02":
-        cnt = "8000" if quick else "300000"
+        cnt = "8000" if quick else "250000"
         cap = [] if quick else ["--secs", "300"]
         noleak = dict(ASAN_ENV, ASAN_OPTIONS=ASAN_ENV["ASAN_OPTIONS"].replace("detect_leaks=1", "detect_leaks=0"))  # these engines leak 'static test data on purpose
         jobs += buf_jobs("rel", "writers", seed + 21, n // 2, ["--count", cnt] + cap, "buf-wr-rel", crash=crash)
@@ -331,7 +331,7 @@ def run_c09(prop, tier, seed, t0):
     n = vlib.JOBS
     cap = [] if quick else ["--secs", "500"]  # thorough: time-capped, the evidence counts what actually ran
     jobs = buf_jobs("dbg", "frag", seed, n, ["--maxlen", "6" if quick else "7"], "frag-dbg")
-    jobs += buf_jobs("rel", "readers", seed, n, ["--count", "40000" if quick else "1500000"] + cap, "rd-rel")
+    jobs += buf_jobs("rel", "readers", seed, n if quick else 3 * n, ["--count", "40000" if quick else "400000"] + cap, "rd-rel")
     jobs += buf_jobs("dbg", "readers", seed + 1, n, ["--count", "15000" if quick else "400000"] + cap, "rd-dbg")
     nm = 4 if quick else 16
     jobs += buf_miri("readers", [["--seed", str(seed), "--shard", str(k), "--nshards", str(nm), "--count", "60" if quick else "250"] for k in range(nm)], "miri-rd", seed)
@@ -357,9 +357,11 @@ def run_c12(prop, tier, seed, t0):
     n = vlib.JOBS
     cap = [] if quick else ["--secs", "400"]
     jobs = buf_jobs("dbg", "frag", seed, n, ["--maxlen", "5" if quick else "7"], "frag-dbg")
-    jobs += buf_jobs("rel", "readers", seed + 2, n, ["--count", "40000" if quick else "1500000"] + cap, "rd-rel")
+    # (the engines leak some 'static test data per case and the ledger's table holds 2^20 blocks: thorough runs use more,
+    # shorter processes instead of longer ones)
+    jobs += buf_jobs("rel", "readers", seed + 2, n if quick else 3 * n, ["--count", "40000" if quick else "400000"] + cap, "rd-rel")
     jobs += buf_jobs("dbg", "readers", seed + 3, n // 2, ["--count", "10000" if quick else "300000"] + cap, "rd-dbg")
-    jobs += buf_jobs("rel", "writers", seed, n, ["--count", "40000" if quick else "1500000"] + cap, "wr-rel")
+    jobs += buf_jobs("rel", "writers", seed, n if quick else 4 * n, ["--count", "40000" if quick else "250000"] + cap, "wr-rel")
     jobs += buf_jobs("dbg", "writers", seed + 1, n // 2, ["--count", "10000" if quick else "300000"] + cap, "wr-dbg")
     rule = (READER_RULE + " Additionally (the part owned by C12) every tree is taken apart afterwards with the crate's own into_inner()/get_ref()/limit(): each inner buffer must hold exactly model[transferred..], limit() must equal n - transferred (also after set_limit in mid-stream, limits 0 / inside / equal / beyond / usize::MAX); "
             "Reader::read / fill_buf+consume / read_to_end and Writer::write / flush at the root must transfer min(available, requested) and never fail; writer trees (Chain, Limit, &mut, Box over Vec, BytesMut, &mut [u8], &mut [MaybeUninit<u8>]) must distribute bytes first-buffer-first within their limits.")
@@ -395,8 +397,8 @@ def run_c11(prop, tier, seed, t0):
     quick = tier != "thorough"
     n = vlib.JOBS
     cap = [] if quick else ["--secs", "500"]
-    jobs = buf_jobs("rel", "writers", seed, n, ["--count", "60000" if quick else "2000000"] + cap, "wr-rel")
-    jobs += buf_jobs("dbg", "writers", seed + 1, n, ["--count", "20000" if quick else "500000"] + cap, "wr-dbg")
+    jobs = buf_jobs("rel", "writers", seed, n if quick else 6 * n, ["--count", "60000" if quick else "250000"] + cap, "wr-rel")
+    jobs += buf_jobs("dbg", "writers", seed + 1, n if quick else 2 * n, ["--count", "20000" if quick else "200000"] + cap, "wr-dbg")
     jobs += buf_jobs("asan-rel", "writers", seed + 2, n // 2, ["--count", "20000" if quick else "500000"] + cap, "asan-rel", kind="asan", env=dict(ASAN_ENV, ASAN_OPTIONS=ASAN_ENV["ASAN_OPTIONS"].replace("detect_leaks=1", "detect_leaks=0")), parity=False)
     nm = 4 if quick else 16
     jobs += buf_miri("writers", [["--seed", str(seed), "--shard", str(k), "--nshards", str(nm), "--count", "50" if quick else "200"] for k in range(nm)], "miri-wr", seed)
